@@ -3,6 +3,7 @@
 set -e
 cd "$(dirname "$0")"
 export CARGO_NET_OFFLINE=true
+python3 tools/extract.py /repo lean/TeosVerif/Gen lean/TeosVerif/GenBaseline > /dev/null
 (cd lean && lake build TeosVerif teos_model)
 cp /repo/Cargo.lock harness/Cargo.lock
 (cd harness && cargo build --offline)
